@@ -81,7 +81,17 @@ def render_v3000(m: Mol, rng: random.Random, opts=None):
     n = m.n()
     wide = o["wide_blanks"]
     # file index per atom (1-based, unique)
-    if o["sparse_index"]:
+    if o["sparse_index"] and rng.random() < 0.3:
+        # the numbers 1..n, but not in file order (shuffled, reversed or rotated)
+        pool = list(range(1, n + 1))
+        how = rng.random()
+        if how < 0.5:
+            rng.shuffle(pool)
+        elif how < 0.75:
+            pool.reverse()
+        else:
+            pool = pool[1:] + pool[:1]
+    elif o["sparse_index"]:
         pool = rng.sample(range(1, max(4 * n + 3, 12)), n)
         if rng.random() < 0.3:
             pool = [p + rng.choice([0, 1000, 100000]) for p in pool]
@@ -237,7 +247,7 @@ def prop_lines(tag, entries, rng):
 def render_v2000(m: Mol, rng: random.Random, opts=None):
     o = {"use_codes": rng.random() < 0.5, "decoy_codes": rng.random() < 0.5, "dt": rng.random() < 0.5,
          "unrelated": rng.random() < 0.5, "atom_lists": rng.random() < 0.2, "crlf": rng.random() < 0.3,
-         "zeros": rng.random() < 0.2, "short_lines": rng.random() < 0.3}
+         "zeros": rng.random() < 0.2, "short_lines": rng.random() < 0.3, "blank_coords": rng.random() < 0.15}
     if opts:
         o.update(opts)
     n = m.n()
@@ -267,7 +277,11 @@ def render_v2000(m: Mol, rng: random.Random, opts=None):
         elif o["decoy_codes"] and (chg or rad):
             # M  CHG / M  RAD lines will supersede these
             code = rng.choice([0, 1, 3, 4, 5, 7])
-        line = f"{a['x']:10.4f}{a['y']:10.4f}{a['z']:10.4f} {sym_of[i]:<3s}{0:2d}{code:3d}"
+        cf = [f"{a[k]:10.4f}" for k in ("x", "y", "z")]
+        if o["blank_coords"]:
+            # a blank fixed-width field reads as 0
+            cf = [" " * 10 if float(c) == 0 and rng.random() < 0.7 else c for c in cf]
+        line = f"{cf[0]}{cf[1]}{cf[2]} {sym_of[i]:<3s}{0:2d}{code:3d}"
         tail = "".join(f"{v:3d}" for v in [0, 0, 0, 0, 0, 0, 0, 0, 0, 0])
         if o["short_lines"] and rng.random() < 0.5:
             tail = tail[: 3 * rng.randint(0, 9)]
@@ -287,10 +301,19 @@ def render_v2000(m: Mol, rng: random.Random, opts=None):
             free = [i for i in range(n) if i not in chg]
             for i in rng.sample(free, min(len(free), 2)):
                 ce.append((i + 1, 0))
+            free = [i for i in range(n) if i not in rad]
+            for i in rng.sample(free, min(len(free), 1)):
+                re_.append((i + 1, 0))
         rng.shuffle(ce), rng.shuffle(re_)
         props += prop_lines("CHG", ce, rng)
         props += prop_lines("RAD", re_, rng)
     ie = [(i + 1, v) for i, v in mass.items()]
+    if o["zeros"]:
+        # an entry with value 0 states nothing: also for an atom written D or T
+        free = [i for i in range(n) if i not in mass]
+        dts = [i for i in free if sym_of[i] in ("D", "T")]
+        for i in set(rng.sample(free, min(len(free), 2)) + dts[:2]):
+            ie.append((i + 1, 0))
     rng.shuffle(ie)
     iso_lines = prop_lines("ISO", ie, rng)
     props += iso_lines
